@@ -120,6 +120,14 @@ CLAIMS = {
          "negative or too large must be rejected with ValueError by json_to_fgg and json_to_hrg. Sampled.",
          "Trusted: vf/iso.py brute-force isomorphism, vf/gen_pattern.py interpreter, vf/oracle_fgg.py, Python json, Hypothesis.",
          "DESIGN.md section 5, C14"),
+ 'C15': ("Hypothesis-generated derivation trees and linearisations: per-step before/after snapshot oracle on replace_edge, confluence under provenance naming against an independent expansion, derive() judged by isomorphism and weight",
+         "For generated grammars, derivation trees of up to 12 rule instances and 2-4 (8) different orders of rewriting the pending nonterminal edges, every "
+         "replace_edge call is checked against the statement clause by clause (only that edge removed, externals identified with attachment nodes in order, "
+         "all other nodes/edges copied once as fresh objects with unused ids, labels and attachment order kept, graph/ext/replacement otherwise untouched; wrong "
+         "type => ValueError and no change); the final graphs of all orders and of an independent expansion coincide under provenance naming; derive() yields an "
+         "isomorphic graph with a total assignment whose weight product equals the product over rule instances. Sampled.",
+         "Trusted: vf/oracle_fgg.py expand (independent replacement), vf/iso.py, Hypothesis. Right-hand sides have distinct external nodes.",
+         "DESIGN.md section 5, C15"),
 }
 
 NOT_YET = {}   # id -> reason (filled while the framework is being built)
